@@ -38,7 +38,12 @@ impl<VM: VMBinding> SFT for LargeObjectSpace<VM> {
         self.get_name()
     }
     fn is_live(&self, object: ObjectReference) -> bool {
+        // A newly allocated object carries the current mark state plus the nursery bit.  During a
+        // nursery GC the mark state is not flipped, so an object whose nursery bit is still set
+        // has not been traced: it will be swept at the end of this GC and must not be reported
+        // as live (tracing a nursery object clears its nursery bit).
         self.test_mark_bit(object, self.mark_state)
+            && !(self.in_nursery_gc && self.is_in_nursery(object))
     }
     #[cfg(feature = "object_pinning")]
     fn pin_object(&self, _object: ObjectReference) -> bool {
@@ -325,6 +330,9 @@ impl<VM: VMBinding> LargeObjectSpace<VM> {
             self.sweep_large_pages(false);
             debug_assert!(self.treadmill.is_from_space_empty());
         }
+        // Objects allocated from now on are in the nursery but alive: only consult the nursery
+        // bit in `is_live` while a nursery GC is in progress.
+        self.in_nursery_gc = false;
     }
 
     // Allow nested-if for this function to make it clear that test_and_mark() is only executed
